@@ -98,6 +98,8 @@ def random_config(rng, allow_virt=True, allow_lpae=True, archs=(6, 7, 7, 7, 5), 
             cfg['arch_version'] = 4 if not virt else 7
         if rng.random() < 0.08:
             cfg['have_adv_simd_or_vfp'] = True
+        if rng.random() < 0.06:
+            cfg['number_of_mpu_regions'] = rng.choice([0, 1, 2, 32])          # unusual MPU sizes of the configuration file
         cfg.update(impdef_switches(rng))
     return cfg
 
